@@ -918,3 +918,129 @@ func E6MemoIndependent(c *core.Ctx, r *core.Report) {
 }
 
 func ei0(s ast.Stmt) ast.Node { return s }
+
+// E6MemoSharedState: a memoising setter does not skip re-establishing state that other setters can change.
+func E6MemoSharedState(c *core.Ctx, r *core.Report) {
+	r.Rule("E6.memo-shared-state", "PDF page writer: a setter that skips its work when its argument equals what it remembered (`if x.Equal(w.f) { return }` or `if !x.Equal(w.f) { … }`) may skip only what its own memo covers. A call of another memoising setter of the same writer (SetAlpha: the ExtGState opacity is one value shared by filling, stroking and images, and each of SetFill, SetStroke and the image code sets it) must therefore not sit in the skipped region — on a memo hit the shared value may have been changed by the other setters in between. With the call inside, a path with the same fill as the previous one is filled with the opacity its predecessor's stroke left behind")
+	p := c.MustPkg("renderers/pdf")
+	info := p.TypesInfo
+	decls := map[*types.Func]*ast.FuncDecl{}
+	for _, fd := range core.AllFuncDecls(p) {
+		if f, ok := info.Defs[fd.Name].(*types.Func); ok {
+			decls[f] = fd
+		}
+	}
+	memo := cachedSetters(p, decls)
+	n := 0
+	var names []string
+	byName := map[string]*types.Func{}
+	for f := range memo {
+		nm := core.FuncName(decls[f])
+		names = append(names, nm)
+		byName[nm] = f
+	}
+	sort.Strings(names)
+	for _, nm := range names {
+		f := byName[nm]
+		fd := decls[f]
+		if core.RecvName(fd) != "pdfPageWriter" {
+			continue
+		}
+		recv := info.Defs[fd.Recv.List[0].Names[0]]
+		own := map[string]bool{}
+		for _, fl := range memo[f] {
+			own[fl] = true
+		}
+		// calls of other memoising setters on the same receiver, and how many setters set that callee's state
+		type site struct {
+			call   *ast.CallExpr
+			callee *types.Func
+		}
+		var sites []site
+		ast.Inspect(fd.Body, func(m ast.Node) bool {
+			call, ok := m.(*ast.CallExpr)
+			if !ok {
+				return true
+			}
+			se, ok := call.Fun.(*ast.SelectorExpr)
+			if !ok {
+				return true
+			}
+			id, ok := core.Unparen(se.X).(*ast.Ident)
+			if !ok || core.ObjOf(info, id) != recv {
+				return true
+			}
+			cf := core.CalleeOf(info, call)
+			if cf == nil || cf == f {
+				return true
+			}
+			if _, isMemo := memo[cf]; isMemo {
+				sites = append(sites, site{call, cf})
+			}
+			return true
+		})
+		for _, st := range sites {
+			// is the callee called from more than one function of the package (shared state)?
+			callers := map[string]bool{}
+			for _, ofd := range decls {
+				if ofd.Body == nil {
+					continue
+				}
+				ast.Inspect(ofd.Body, func(m ast.Node) bool {
+					if call, ok := m.(*ast.CallExpr); ok && core.CalleeOf(info, call) == st.callee {
+						callers[core.FuncName(ofd)] = true
+					}
+					return true
+				})
+			}
+			if len(callers) < 2 {
+				continue
+			}
+			n++
+			key := fmt.Sprintf("pdf.%s|call of %s is not skipped on a memo hit", core.FuncName(fd), st.callee.Name())
+			// skipped region: (a) after an `if memo-hit { return }` statement; (b) inside `if !memo-hit { … }`
+			skipped := ""
+			mentionsOwn := func(e ast.Expr) bool {
+				found := false
+				ast.Inspect(e, func(k ast.Node) bool {
+					if sel, ok := k.(*ast.SelectorExpr); ok && own[sel.Sel.Name] {
+						if id, ok := core.Unparen(sel.X).(*ast.Ident); ok && core.ObjOf(info, id) == recv {
+							found = true
+						}
+					}
+					return true
+				})
+				return found
+			}
+			ast.Inspect(fd.Body, func(m ast.Node) bool {
+				is, ok := m.(*ast.IfStmt)
+				if !ok || !mentionsOwn(is.Cond) {
+					return true
+				}
+				endsInReturn := false
+				if len(is.Body.List) > 0 {
+					_, endsInReturn = is.Body.List[len(is.Body.List)-1].(*ast.ReturnStmt)
+				}
+				if endsInReturn && is.Else == nil && st.call.Pos() > is.End() {
+					skipped = "it follows the early return `if " + c.Src(is.Cond) + " { return }`"
+				}
+				if !endsInReturn && is.Body.Pos() <= st.call.Pos() && st.call.End() <= is.Body.End() {
+					skipped = "it sits inside `if " + c.Src(is.Cond) + " { … }`"
+				}
+				return true
+			})
+			if skipped != "" {
+				var cs []string
+				for k := range callers {
+					cs = append(cs, k)
+				}
+				sort.Strings(cs)
+				r.Fail("E6.memo-shared-state", key, c.Pos(st.call.Pos()), fmt.Sprintf("%s, so it is skipped when the argument equals the remembered one, but the state %s sets is also set by %s: the value left behind by them stays in force", skipped, st.callee.Name(), strings.Join(cs, ", ")))
+			} else {
+				r.OK("E6.memo-shared-state", key, c.Pos(st.call.Pos()), "")
+			}
+		}
+	}
+	r.Count("E6.shared-memo-calls", n)
+	r.Floor("E6.shared-memo-calls", 2)
+}
